@@ -4,3 +4,10 @@ import Verif.Properties.C07
 #print axioms C07.topmostFirst_perm
 #print axioms C07.depthFirst_perm_of_input
 #print axioms C07.gatherOperations_order_independent
+#print axioms C07.updateRef_commutes
+#print axioms C07.normalizeRef_order_independent
+#print axioms C07.normalizeRef_is_the_loop
+#print axioms C07.reref_order_independent
+#print axioms C07.uniqifyName_order_independent
+#print axioms C07.removalPass_order_independent
+#print axioms C07.sortedParents_order_independent
